@@ -8,6 +8,11 @@ DEC_EDGES = (0.15, 0.45, 0.9, 1.2, 1.9)
 DEC_DUR = (0.1, 0.3, 0.7, 1.7)
 # ulp-neighbour grid: pairs of floats one ulp apart (0.1+0.2 vs 0.3, 0.1+0.7 vs 0.8) - near-coincidences that are not coincidences
 ULP = (0.1, 0.3, 0.1 + 0.2, 0.1 + 0.7, 0.8, 1.3)
+# far-from-zero grid: dyadic offsets from 2**40 (~1.1e12 s), all exactly representable, so the exact oracle applies bit for bit.
+# At this magnitude a RELATIVE tolerance is a real duration: math.isclose's default 1e-9 is ~1100 s (all grid values are
+# "close" to each other), praatio's 1e-14 is ~0.011 s (BIG[0] and BIG[1], 2**-7 = 7.8 ms apart, are "close"; the others are not).
+BIG0 = 2.0 ** 40
+BIG = tuple(BIG0 + x for x in (0.0, 2.0 ** -7, 0.25, 0.5, 1.0, 2.0, 3.0, 4.0))
 SLV = (1e-12, 1e-10, 5e-9, 9.9e-9, 1e-8, 1.1e-8, 2e-8, 5e-8)
 
 
